@@ -107,14 +107,61 @@ func c06R1(c *Ctx, rule string) {
 		c.Bad(rule, "client plaintext is 48 bytes", c.atFn(mk), "no 48-byte plaintext buffer found in makeAuthenticationPayload")
 		return
 	}
+	// a local [48]byte array handed on as plaintext[:]: the writes go through the array
+	// (a constant-size make is an array cell plus a full slice of it as well)
+	var arr *ssa.Alloc
+	if sl, ok := pt.(*ssa.Slice); ok && sl.Low == nil {
+		if al, isAl := sl.X.(*ssa.Alloc); isAl {
+			arr = al
+		}
+	}
+	isWhole := func(v ssa.Value) bool {
+		if v == pt || (arr != nil && v == ssa.Value(arr)) {
+			return true
+		}
+		if sl, ok := v.(*ssa.Slice); ok && arr != nil && sl.X == ssa.Value(arr) && sl.Low == nil {
+			if k, isK := constLenOf(sl); isK && k == 48 {
+				return true
+			}
+		}
+		return false
+	}
+	bounds := func(v ssa.Value) (int64, int64, bool) {
+		if isWhole(v) {
+			return 0, -1, true
+		}
+		sl, ok := v.(*ssa.Slice)
+		if !ok || !isWhole(sl.X) {
+			return 0, 0, false
+		}
+		return sliceBounds(v, sl.X)
+	}
+	nameOf := func(v ssa.Value) string {
+		what := fieldNameOfValue(v)
+		if what == "" {
+			if ld, isLd := stripConv(v).(*ssa.UnOp); isLd {
+				if al, isAl := ld.X.(*ssa.Alloc); isAl {
+					if sv := cellValue(al, ld); sv != nil {
+						v = sv
+						what = fieldNameOfValue(v)
+					}
+				}
+			}
+		}
+		if what == "" && strings.Contains(Expr(v), "Unix") {
+			what = "timestamp"
+		}
+		return what
+	}
 	var cl []layoutEntry
+	var bstores []byteStore
 	allInstrs(mk, func(i ssa.Instruction) {
 		switch x := i.(type) {
 		case *ssa.Call:
 			n := calleeName(&x.Call)
 			switch {
 			case n == "builtin.copy":
-				if lo, hi, ok := sliceBounds(x.Call.Args[0], pt); ok {
+				if lo, hi, ok := bounds(x.Call.Args[0]); ok {
 					what := fieldNameOfValue(x.Call.Args[1])
 					if hi < 0 {
 						// copy(plaintext, UID): bounded by the next field (UID is 16 bytes by construction of the table)
@@ -124,41 +171,50 @@ func c06R1(c *Ctx, rule string) {
 				}
 			case strings.Contains(n, "bigEndian).PutUint64"), strings.Contains(n, "bigEndian).PutUint32"):
 				args := x.Call.Args
-				if lo, hi, ok := sliceBounds(args[len(args)-2], pt); ok {
+				if lo, hi, ok := bounds(args[len(args)-2]); ok {
 					enc := "BE64"
 					if strings.Contains(n, "PutUint32") {
 						enc = "BE32"
 					}
-					what := fieldNameOfValue(args[len(args)-1])
-					if what == "" && strings.Contains(Expr(args[len(args)-1]), "Unix") {
-						what = "timestamp"
-					}
+					what := nameOf(args[len(args)-1])
 					cl = append(cl, layoutEntry{lo, hi, enc, what, i})
 				}
 			}
 		case *ssa.Store:
 			ia, ok := x.Addr.(*ssa.IndexAddr)
-			if !ok || ia.X != pt {
+			if !ok || !isWhole(ia.X) {
 				return
 			}
 			k, isK := intConst(ia.Index)
 			if !isK {
+				// a big-endian integer written byte by byte in a loop
+				if lo, n, src, okL := beLoopStore(x, ia); okL {
+					cl = append(cl, layoutEntry{lo, lo + n, fmt.Sprintf("BE%d", n*8), nameOf(src), i})
+				} else if lo, n, src, okL := beDescLoopStore(x, ia); okL {
+					cl = append(cl, layoutEntry{lo, lo + n, fmt.Sprintf("BE%d", n*8), nameOf(src), i})
+				}
 				return
 			}
-			what := fieldNameOfValue(x.Val)
-			enc := "byte"
 			if bo, isB := x.Val.(*ssa.BinOp); isB && bo.Op == token.OR {
-				enc = "flag"
+				what := ""
 				// guarded by authInfo.Unordered
 				for _, a := range AtomsAt(i) {
 					if a.Kind == "bool" && a.Pol {
 						what = fieldNameOfValue(a.X)
 					}
 				}
+				cl = append(cl, layoutEntry{k, k + 1, "flag", what, i})
+				return
 			}
-			cl = append(cl, layoutEntry{k, k + 1, enc, what, i})
+			bstores = append(bstores, byteStore{k, x.Val, i})
 		}
 	})
+	// manual big-endian writes (byte(x>>24), byte(x>>16), …) are one field
+	fields, rest := groupBigEndian(bstores, nameOf)
+	cl = append(cl, fields...)
+	for _, s := range rest {
+		cl = append(cl, layoutEntry{s.off, s.off + 1, "byte", fieldNameOfValue(s.val), s.at})
+	}
 	sort.Slice(cl, func(i, j int) bool { return cl[i].lo < cl[j].lo })
 	spec := layoutString(authSpec)
 	c.Check(layoutString(cl) == spec, rule, "client plaintext table = v2 table", c.atFn(mk), layoutString(cl), "client writes {"+layoutString(cl)+"}, the v2 authentication block is {"+spec+"}")
@@ -435,6 +491,7 @@ func c06R3(c *Ctx, rule string) {
 	}
 	if f := c.need(rule, "internal/server", "TLS.unmarshalClientHello"); f != nil {
 		rnd, ctx := false, false
+		var firstHalf *ssa.Call
 		p.unitInstrs(f, func(i ssa.Instruction) {
 			if call, ok := i.(*ssa.Call); ok && calleeName(&call.Call) == "builtin.copy" {
 				dst, src := call.Call.Args[0], p.canonIn(f, call.Call.Args[1])
@@ -445,6 +502,22 @@ func c06R3(c *Ctx, rule string) {
 				}
 				if mentionsField(dst, sCt) && mentionsCallTo(src, "builtin.append") && mentionsField(src, chSession) && mentionsCallTo(src, "parseKeyShare") {
 					ctx = true
+				}
+				// the same concatenation written as two copies: the session id at the front, the key share right behind it
+				// (at the count the first copy returned, or at len(sessionId))
+				if sl, isSl := dst.(*ssa.Slice); isSl && mentionsField(dst, sCt) {
+					if sl.Low == nil && mentionsField(src, chSession) && !mentionsCallTo(src, "parseKeyShare") {
+						firstHalf = call
+					} else if sl.Low != nil && firstHalf != nil && mentionsCallTo(src, "parseKeyShare") && !mentionsField(src, chSession) && instrDominates(firstHalf, call) {
+						low := stripConv(sl.Low)
+						behind := low == ssa.Value(firstHalf)
+						if lc, isL := low.(*ssa.Call); isL && calleeName(&lc.Call) == "builtin.len" && mentionsField(p.canonIn(f, lc.Call.Args[0]), chSession) {
+							behind = true
+						}
+						if behind {
+							ctx = true
+						}
+					}
 				}
 			}
 		})
@@ -585,10 +658,20 @@ func c06R4(c *Ctx, rule string) {
 	// the client consumes two more records; the server sends exactly two more
 	loopOK := false
 	allInstrs(hs, func(i ssa.Instruction) {
-		if iff, ok := i.(*ssa.If); ok {
-			at := NormCond(iff.Cond, true)
-			if at.Kind == "cmp" && at.Op == token.LSS && isK(at.Y, 2) {
-				loopOK = true
+		// any counting loop around a read that runs exactly twice (counting up or down, whatever the bounds)
+		if ph, ok := i.(*ssa.Phi); ok {
+			if n, okN := constTripCount(ph); okN && n == 2 {
+				reads := false
+				allInstrs(hs, func(j ssa.Instruction) {
+					if call, isC := j.(*ssa.Call); isC && strings.HasSuffix(calleeName(&call.Call), ".Read") {
+						if ph.Block().Dominates(call.Block()) && blockReaches(call.Block(), ph.Block(), true) {
+							reads = true
+						}
+					}
+				})
+				if reads {
+					loopOK = true
+				}
 			}
 		}
 	})
